@@ -190,6 +190,8 @@ def replay_type(a):
 
 # ------------------------------------------------------------------------------------------ nop / cancel_slot
 def gen_misc(loader, check, replay_on=True):
+    from . import catalog
+    catalog.gen_data_pins(loader, check, replay_on)
     T = loader.load(tkit.M_T).globals["RZILTransformer"]
     NOP = irkit.C(loader, "NOP")
     check.under_contract(loader, T.methods["nop"], T.methods["cancel_slot_stmt"], NOP.methods["il_write"], NOP.methods["__init__"])
